@@ -40,8 +40,8 @@ Dflt(f, k, d) == IF k \in DOMAIN f THEN f[k] ELSE d
 (*        string is the one observed for those earlier fields.             *)
 (* A cache keyed by the string (DiskCache) then aliases such keys: the     *)
 (* keys involved are TAINTED for the rest of the run (their answers and    *)
-(* the books are not judged; failures and panics still are).  A cache      *)
-(* keyed by Eq/Hash (MemoryCache) is never tainted.                        *)
+(* the books are not judged; panics and hangs still are).  A cache keyed   *)
+(* by Eq/Hash (MemoryCache) is never tainted.                              *)
 (***************************************************************************)
 K0 == [slots |-> EmptyFn, N |-> {}, HS |-> EmptyFn, HF |-> EmptyFn, s |-> C0, used |-> {}, taint |-> {},
        rg |-> 0, rh |-> 0]
@@ -83,7 +83,7 @@ KeyCall(a, kt, back, o, n, op, e) ==
       ee    == IF op = "put" THEN [op |-> "put", k |-> k, n |-> e.n, vh |-> e.vh, res |-> e.res]
                ELSE [op |-> op, k |-> k, res |-> e.res]
       rc    == IF "outcome" \in DOMAIN e.res THEN "bad"
-               ELSE IF k \in t1 THEN One(op = "put" \/ ~IsFailure(e.res))
+               ELSE IF k \in t1 THEN "ok"       \* tainted: also a reported error (the alias removed the file) is the same defect
                ELSE One(ResOk(a.s, KCfg, ee))
   IN [N |-> AddName(a.N, o, n, c), s |-> Apply(a.s, KCfg, ee), used |-> a.used \cup {k}, taint |-> t1,
       rg |-> a.rg + (IF op = "get" THEN 1 ELSE 0), rh |-> a.rh + (IF op = "get" /\ IsHit(e.res) THEN 1 ELSE 0),
@@ -385,6 +385,9 @@ JudgeArc(s0, cfg, e) ==
 (*        as a cache miss and asks the backend again (and overwrites the   *)
 (*        cached root).  Guard: one backend request although the root is   *)
 (*        cached, and the cached root answers None for the path.           *)
+(* FX04i  CdnClient::fetch_config slices the hash at [0..2] and [2..4]: it *)
+(*        panics for a hash shorter than 4 bytes.  Guard: panic and        *)
+(*        Len(hash) < 4.                                                   *)
 (***************************************************************************)
 Rm0 == [tot |-> 0, ok |-> 0, rh |-> 0, rmiss |-> 0, eh |-> 0, emiss |-> 0]
 S0r == [sroot |-> C0, asroot |-> C0, senc |-> C0, poison |-> {}, prm |-> Rm0, pcm |-> Cm0]
@@ -413,7 +416,7 @@ JudgeRes(s0, cfg, e) ==
       dreq == e.cm.req - s0.pcm.req  dok == e.cm.ok - s0.pcm.ok  dfail == e.cm.fail - s0.pcm.fail
       mono == /\ m.tot >= p.tot /\ m.ok >= p.ok /\ m.rh >= p.rh /\ m.rmiss >= p.rmiss /\ m.eh >= p.eh /\ m.emiss >= p.emiss
               /\ m.ok - p.ok = (IF e.op \in {"res", "fb"} /\ IsSome(r) THEN 1 ELSE IF e.op = "chain" /\ m.ok > p.ok THEN 1 ELSE 0)
-      base == {One(mono), One(CmOk(s0, e, e.op = "fb"))}
+      base == {One(mono), One(CmOk(s0, e, e.op \in {"fb", "fcfg"}))}
       x ==
     CASE e.op = "croot" ->
          IF IsOkUnit(r) THEN Out([s0 EXCEPT !.sroot = PutR(@, e.r, e.as, 0, "long"), !.asroot = PutR(@, e.r, e.as, 0, "long"),
@@ -475,6 +478,9 @@ JudgeRes(s0, cfg, e) ==
                      ELSE IF Known("FX04n") /\ asisRefetch THEN "FX04n"
                      ELSE IF Known("FX04l") /\ asisNoFetch THEN "FX04l"
                      ELSE "bad"})
+      [] e.op = "fcfg" ->      \* CdnClient::fetch_config: one request, data or a reported error, never a panic
+         IF IsPanic(r) THEN Out(s0, {IF Known("FX04i") /\ Len(e.h) < 4 THEN "FX04i" ELSE "bad"})
+         ELSE Out(s0, {One(m = p /\ dreq = 1 /\ ((IsHit(r) /\ dok = 1) \/ (IsErr(r, "network") /\ dfail = 1)))})
       [] OTHER -> Out(s0, {"bad"})
   IN Out([x.st EXCEPT !.prm = e.rm, !.pcm = e.cm], x.cls \cup base)
 
